@@ -33,6 +33,8 @@ def run(ctx):
         dict(ctx=ctx, binary=binary, name="mixed", stacks=mixed, outs=seq.OUTS3, maxcalls=mc, execs=2 if not quick else 1, workers=6),
         dict(ctx=ctx, binary=binary, name="timed", stacks=timed, outs=OUTS_T, maxcalls=mc, execs=1, workers=6),
     ]
+    typed = [["rpT"], ["rpTR"], ["rpT", "cbTy"], ["rpTR", "fbT"], ["fbT", "rpT"], ["rpT", "rpTR"]]
+    jobs.append(dict(ctx=ctx, binary=binary, name="typed", stacks=typed, outs=seq.OUTS_TY, maxcalls=3 if quick else 4, execs=2, workers=4))
     mism = seq.run_jobs(ctx, jobs, par=3)
     seq.report(ctx, mism, accept)
     # "the budget belongs to one execution": overlapping executions (sync and async) through ONE policy instance, each with
